@@ -272,6 +272,10 @@ func rulesC08(e *Engine, r *Report) {
 		}
 	}
 	e.checkReceivedLeading(r, "R08.4")
+	r.Rule("R08.6", "the receiver's answer to `how many of these parts did you get` is about these parts: a part counts as on record only through a companion range of equal rename, hash and predecessor, or a known, non-failed file of the SAME hash and rename (an older delivered version of the name must not stand in for the parts of a new one, else the sender skips parts the receiver never recorded)")
+	if sc8 := e.stageConsts(r, "R08.6"); sc8.ok {
+		e.checkPartReceived(r, "R08.6", sc8)
+	}
 	if fn := needFn(e, r, "R08.4", "http.(*Server).routeDataRecovery"); fn != nil {
 		got := e.findInstrs(fn, "call(http.(Header).Add)(invoke(http.ResponseWriter.Header)(p1), "+e.constOr("http", "HeaderPartCount")+", call(strconv.Itoa)(invoke(sts.GateKeeper.Received)(§, invoke(sts.PayloadDecoder.GetParts)(§))))", false)
 		r.Check(len(got) == 1, "R08.4", "http.(*Server).routeDataRecovery: answers X-STS-PartCount = GateKeeper.Received(decoded parts)", e.Pos(fn.Pos()),
